@@ -8,7 +8,10 @@ Open Scope Z_scope.
 Section ET.
 Variable et : bool.
 Notation QINV := (Inv ustep (qstep et) tt (q0 et)).
-Notation RQ := (RQ et).
+
+Section ND.
+Variable nd : list Z.
+Notation RQ := (RQ et nd).
 
 Ltac qoign := apply qign_out_ign; repeat split; reflexivity.
 Ltac dsync := eapply Q_desync; eassumption.
@@ -39,7 +42,7 @@ Proof.
   exists (p', b'). split.
   { unfold qstep, rdx, obs. cbn [fst snd prog_step]. subst b'. destruct et; [|reflexivity].
     cbn [rd_step]. destruct (r_full b) as [c|]; [destruct (c =? cid)|]; reflexivity. }
-  pose proof (RQ_dead_add _ _ _ _ _ _ _ _ _ cid HR) as HD. fold p' in HD.
+  pose proof (RQ_dead_add _ _ _ _ _ _ _ _ _ _ cid HR) as HD. fold p' in HD.
   assert (Hnr : forall c, xa <> QRegd c) by (exact (proj2 Hxa)).
   destruct HD as [R1 R2 R3 R4 R5 R6 R7 R8 R9 R10 R11 R12 R13]. cbn [fst snd] in *.
   assert (Hdc : pdead p' cid = true) by (unfold pdead, p'; cbn [p_dead]; rewrite zmem_cons, Z.eqb_refl; reflexivity).
@@ -86,8 +89,9 @@ Proof.
     destruct (R7 _ _ H D) as [A|[A|A]]; auto. discriminate.
   - intros c H. rewrite getc_setc. destruct (R8 c (or_intror H)) as (A & B & C).
     destruct (Z.eqb_spec c cid) as [->|N]; [rewrite Hfd|]; auto.
-  - intros c fd H. destruct (R9 _ _ H) as (A & B & C). rewrite getc_setc.
-    destruct (Z.eqb_spec c cid) as [->|N]; [rewrite Hfd; auto|auto].
+  - intros c k H. destruct (R9 _ _ H) as (A & B). split; [exact A|].
+    unfold opsem in *. rewrite getc_setc. destruct (Z.eqb_spec c cid) as [->|N]; [|exact B].
+    rewrite Hfd, Hud, Hrel. destruct k; [destruct B as [B1 B2]; auto|tauto].
   - intros c. rewrite getc_setc. destruct (Z.eqb_spec c cid) as [->|N]; [intros; congruence|auto].
   - intros fd c H. rewrite getc_setc. destruct (Z.eqb_spec c cid) as [->|N]; [intros; congruence|].
     intros A D E F _. apply (R11 fd c H A D E F). cbn. tauto.
@@ -97,36 +101,37 @@ Proof.
 Qed.
 
 Record MQ (f : nat) : Prop := mkMQ {
-  mq_close : forall cid e w r w' W ops rf xa, okx xa cid ->
+  mq_close : forall cid e w r w' W ops rf xa, okx xa cid -> (nd = [] \/ nd = [cid]) ->
       QINV (RQ W ops xa rf) w -> el_close f cid e w = (r, w') -> QINV (RQ W ops QNone rf) w';
   mq_drain : forall cid w W ops rf, In cid W -> QINV (RQ W ops QNone rf) w -> QINV (RQ W ops QNone rf) (close_drain f cid w);
-  mq_write : forall cid d w r w' W ops rf, QINV (RQ W ops QNone rf) w -> conn_write f cid d w = (r, w') -> QINV (RQ W ops QNone rf) w';
+  mq_write : forall cid d w r w' W ops rf, (nd = [] \/ nd = [cid]) -> QINV (RQ W ops QNone rf) w -> conn_write f cid d w = (r, w') -> QINV (RQ W ops QNone rf) w';
   mq_wloop : forall cid d n w r w' W ops rf fd o, QINV (RQ W ops (QE cid fd o) rf) w ->
       conn_write_loop f cid d n w = (r, w') ->
       exists xa, okx xa cid /\ (snd r = true -> xa = QNone) /\ QINV (RQ W ops xa rf) w';
   mq_wvloop : forall cid sg n w r w' W ops rf fd o, QINV (RQ W ops (QE cid fd o) rf) w ->
       conn_writev_loop f cid sg n w = (r, w') ->
       exists xa, okx xa cid /\ (snd r = true -> xa = QNone) /\ QINV (RQ W ops xa rf) w';
-  mq_writev : forall cid sg w r w' W ops rf, QINV (RQ W ops QNone rf) w -> conn_writev f cid sg w = (r, w') -> QINV (RQ W ops QNone rf) w';
-  mq_elwrite : forall cid sent w r w' W ops rf xa, xa = QNone \/ xa = QX cid ->
+  mq_writev : forall cid sg w r w' W ops rf, (nd = [] \/ nd = [cid]) -> QINV (RQ W ops QNone rf) w -> conn_writev f cid sg w = (r, w') -> QINV (RQ W ops QNone rf) w';
+  mq_elwrite : forall cid sent w r w' W ops rf xa, xa = QNone \/ (xa = QX cid /\ l_et (st w) = true) ->
+      (nd = [] \/ nd = [cid]) ->
       QINV (RQ W ops xa rf) w -> el_write f cid sent w = (r, w') -> QINV (RQ W ops QNone rf) w';
-  mq_handler : forall cid w r w' W ops rf, QINV (RQ W ops QNone rf) w -> handler f cid w = (r, w') -> QINV (RQ W ops QNone rf) w';
-  mq_hcall : forall cid call args w W ops rf, QINV (RQ W ops QNone rf) w -> QINV (RQ W ops QNone rf) (hcall f cid call args w)
+  mq_handler : forall cid w r w' W ops rf, nd = [] -> QINV (RQ W ops QNone rf) w -> handler f cid w = (r, w') -> QINV (RQ W ops QNone rf) w';
+  mq_hcall : forall cid call args w W ops rf, nd = [] -> QINV (RQ W ops QNone rf) w -> QINV (RQ W ops QNone rf) (hcall f cid call args w)
 }.
 
 (* dropping the exemption of a connection for which nothing is demanded *)
 Lemma Q_unexempt_if : forall W ops rf w c,
   (forall u p b, RQ W ops (QX c) rf u (p, b) (st w) ->
-     forall fd, In (fd, c) (l_reg (st w)) -> c_udp (wc w c) = false -> pdead p c = false -> pdirty p c = false ->
+     forall fd, In (fd, c) (l_reg (st w)) -> c_udp (wc w c) = false -> pdead p c = false -> clean nd p c ->
      c_out (wc w c) <> [] -> served et p fd c) ->
   QINV (RQ W ops (QX c) rf) w -> QINV (RQ W ops QNone rf) w.
-Proof. intros W ops rf w c H HI. eapply (Q_unexempt et W ops (QX c) rf w c); [cbn; auto|discriminate|exact H|exact HI]. Qed.
+Proof. intros W ops rf w c H HI. eapply (Q_unexempt et nd W ops (QX c) rf w c); [cbn; auto|discriminate|exact H|exact HI]. Qed.
 
 Lemma Q_unexempt_dead : forall W ops rf w c, In c W ->
   QINV (RQ W ops (QX c) rf) w -> QINV (RQ W ops QNone rf) w.
 Proof.
   intros W ops rf w c Hin HI. apply (Q_unexempt_if W ops rf w c); [|exact HI].
-  intros u p b HR fd _ _ D. destruct (q_W _ _ _ _ _ _ _ _ HR c Hin) as [A _]. cbn [fst] in A. congruence.
+  intros u p b HR fd _ _ D. destruct (q_W _ _ _ _ _ _ _ _ _ HR c Hin) as [A _]. cbn [fst] in A. congruence.
 Qed.
 
 Lemma Q_unexempt_empty : forall W ops rf w c, c_out (wc w c) = [] ->
@@ -138,7 +143,7 @@ Lemma Q_unexempt_closed : forall W ops rf w c, c_opened (wc w c) = false ->
 Proof.
   intros W ops rf w c Ho HI. apply (Q_unexempt_if W ops rf w c); [|exact HI].
   intros u p b HR fd Hin Hu D _ _. unfold wc in *.
-  destruct (q_regop _ _ _ _ _ _ _ _ HR fd c Hin D) as [A|[A|A]]; [congruence|congruence|discriminate].
+  destruct (q_regop _ _ _ _ _ _ _ _ _ HR fd c Hin D) as [A|[A|A]]; [congruence|congruence|discriminate].
 Qed.
 
 (* one connection's c_out changes while it is exempt *)
@@ -148,7 +153,7 @@ Lemma Q_set_out_x : forall W ops rf w c o,
 Proof.
   intros W ops rf w c o Ho HI. eapply Inv_wsetc; [exact HI|]. intros [] [p b] _ HR. unfold wc in *.
   apply RQ_setc; auto; cbn [c_set_out c_opened c_udp c_out c_fd].
-  - intros A B D E. apply Ho. apply (q_nop _ _ _ _ _ _ _ _ HR); assumption.
+  - intros A B D E. apply Ho. apply (q_nop _ _ _ _ _ _ _ _ _ HR); assumption.
   - intros fd _ _ _ _ _ G. exfalso. apply G. reflexivity.
   - discriminate.
   - discriminate.
@@ -159,12 +164,12 @@ Lemma close_drain_S : forall f, MQ f -> forall cid w W ops rf, In cid W ->
 Proof.
   intros f M cid w W ops rf Hin HI. cbn [close_drain].
   destruct (c_out (wc w cid)) as [|b0 l0] eqn:Eout; [exact HI|]. rewrite <- Eout.
-  pose proof (Q_exempt _ _ _ _ _ cid HI) as HX.
+  pose proof (Q_exempt _ _ _ _ _ _ cid HI) as HX.
   destruct (sys_wr cid _ _ false w) as [k w1] eqn:Es.
-  pose proof (Q_sys_wr_gen et W ops rf (QX cid) (QX cid) (QX cid) (QX cid) cid _ _ _ _ _ _
-    ltac:(intros bs w0 _ H0; refine (Q_hand _ _ _ (QX cid) _ cid bs _ _ H0); intros _; left; reflexivity)
-    ltac:(intros w0 _ H0; exact (Q_owed _ _ _ _ _ "eagain" cid _ (or_introl eq_refl) H0))
-    ltac:(intros w0 _ H0; exact (Q_fail _ _ _ _ _ cid _ H0)) HX Es) as H1.
+  pose proof (Q_sys_wr_gen et nd W ops rf (QX cid) (QX cid) (QX cid) (QX cid) cid _ _ _ _ _ _
+    ltac:(intros bs w0 _ H0; refine (Q_hand _ _ _ _ (QX cid) _ cid bs _ _ H0); intros _; left; reflexivity)
+    ltac:(intros w0 _ H0; exact (Q_owed _ _ _ _ _ _ "eagain" cid _ (or_introl eq_refl) H0))
+    ltac:(intros w0 _ H0; exact (Q_fail _ _ _ _ _ _ cid _ H0)) HX Es) as H1.
   destruct k as [n extra|e|].
   - destruct H1 as [_ H1]. apply (mq_drain _ M); [exact Hin|].
     apply (Q_unexempt_dead W ops rf _ cid); [exact Hin|]. apply Q_set_out_x; [|exact H1]. intros ->. apply zdrop_nil.
@@ -181,56 +186,12 @@ Proof.
 Qed.
 
 Lemma Q_ops_add : forall W ops xa rf w c, c_opened (wc w c) = true ->
-  QINV (RQ W ops xa rf) w -> QINV (RQ W ((c, c_fd (wc w c)) :: ops) xa rf) w.
+  QINV (RQ W ops xa rf) w -> QINV (RQ W ((c, Some (c_fd (wc w c))) :: ops) xa rf) w.
 Proof.
   intros W ops xa rf w c Ho HI. eapply Q_weaken; [|exact HI]. intros u x HR.
-  pose proof (q_opn _ _ _ _ _ _ _ _ HR c Ho) as Hlt.
+  pose proof (q_opn _ _ _ _ _ _ _ _ _ HR c Ho) as Hlt.
   destruct HR as [R1 R2 R3 R4 R5 R6 R7 R8 R9 R10 R11 R12 R13]. constructor; auto.
-  intros c0 fd [E|H]; [inversion E; subst; unfold wc in *; auto|auto].
-Qed.
-
-Lemma el_close_S : forall f, MQ f -> forall cid e w r w' W ops rf xa, okx xa cid ->
-  QINV (RQ W ops xa rf) w -> el_close (S f) cid e w = (r, w') -> QINV (RQ W ops QNone rf) w'.
-Proof.
-  intros f M cid e w r w' W ops rf xa Hxa HI E. cbn [el_close] in E.
-  assert (Hnoop : c_opened (wc w cid) = false \/ alookup (c_fd (wc w cid)) (l_reg (st w)) = None ->
-                  QINV (RQ W ops QNone rf) w).
-  { intros Hg. apply (Q_unexempt et W ops xa rf w cid (proj1 Hxa) (proj2 Hxa)); [|exact HI].
-    intros u p b HR fd Hin Hu D _ _. exfalso. unfold wc in *.
-    assert (Hq : forall A, xa = QRegd cid -> A) by (intros A Q; exfalso; eapply (proj2 Hxa); eauto).
-    destruct (q_regop _ _ _ _ _ _ _ _ HR fd cid Hin D) as [A|[A|A]]; [|congruence|apply Hq; exact A].
-    destruct (q_reg _ _ _ _ _ _ _ _ HR cid A) as [B|[B C]].
-    - destruct Hg; congruence.
-    - destruct (q_W _ _ _ _ _ _ _ _ HR cid C) as [D' _]. cbn [fst] in *. congruence. }
-  destruct (c_opened (wc w cid)) eqn:Eo; cbn [negb orb] in E; [|inversion E; subst; apply Hnoop; auto].
-  destruct (alookup (c_fd (wc w cid)) (l_reg (st w))) as [rc|] eqn:Er; [|inversion E; subst; apply Hnoop; auto].
-  clear Hnoop.
-  set (w2 := emit _ (with_st w _)) in E.
-  assert (H2 : QINV (RQ (cid :: W) ops QNone rf) w2).
-  { subst w2. eapply Inv_set_emit; [exact HI|reflexivity|].
-    intros [] [p b] _ HR. cbn [ustep]. unfold wc in *.
-    destruct (RQ_close _ _ _ _ _ _ _ cid (err_sym e) xa Hxa HR Eo) as [x' [Ex HR']]; [congruence|]. eauto. }
-  clearbody w2.
-  destruct (handler f cid w2) as [[act rep] w3] eqn:Eh.
-  pose proof (mq_handler _ M _ _ _ _ _ _ _ H2 Eh) as H3.
-  assert (HinW : In cid (cid :: W)) by (left; reflexivity).
-  pose proof (mq_drain _ M cid _ _ _ _ HinW H3) as H4.
-  set (w4 := close_drain f cid w3) in *. clearbody w4.
-  set (fd4 := c_fd (wc w4 cid)) in *.
-  assert (H5 : QINV (RQ W ops (QNoReg fd4) rf) (wsetc w4 cid (c_release (wc w4 cid)))).
-  { eapply Inv_wsetc; [exact H4|]. intros [] x _ HR. apply RQ_release. exact HR. }
-  assert (Hfree : forall u p b s, RQ W ops (QNoReg fd4) rf u (p, b) s ->
-     forall c, In (fd4, c) (l_reg s) -> c_udp (getc s c) = false -> pdead p c = false -> c_out (getc s c) <> [] -> False).
-  { intros u p b s HR c Hin _ _ _. pose proof (q_x _ _ _ _ _ _ _ _ HR) as X. cbn [qsem] in X.
-    eapply noreg_free; eauto. }
-  destruct (epctl "del" _ false false _) as [r0 w6] eqn:E6.
-  pose proof (Q_epctl_free _ _ _ _ _ _ _ _ _ _ _ _ Hfree H5 E6) as H6.
-  destruct (sys "close" _ w6) as [k1 w7] eqn:E7.
-  pose proof (Q_sys_close _ _ _ _ _ _ _ _ _ Hfree H6 E7) as H7.
-  assert (H7' : QINV (RQ W ops QNone rf) w7) by (eapply Q_xa_drop; [| |exact H7]; [intros c []|intros; discriminate]).
-  destruct (match r0 with RNil => _ | _ => true end); [inversion E; subst; exact H7'|].
-  destruct act; [inversion E; subst; exact H7'| |inversion E; subst; exact H7'].
-  eapply (mq_close _ M); [apply okx_none|exact H7'|exact E].
+  intros c0 k [E|H]; [inversion E; subst; unfold wc, opsem in *; auto|auto].
 Qed.
 
 (* ------------------------------------------------------------------ *)
@@ -239,8 +200,8 @@ Qed.
 Lemma Q_reanchor : forall W ops rf c fd o w,
   QINV (RQ W ops (QE c fd o) rf) w -> QINV (RQ W ops (QE c (c_fd (wc w c)) o) rf) w.
 Proof.
-  intros W ops rf c fd o w HI. eapply (Q_xa_weaken et W ops (QE c fd o)); [intros; discriminate|intros c0 []| |exact HI].
-  intros u x HR. pose proof (q_x _ _ _ _ _ _ _ _ HR) as X. cbn [qsem] in *. unfold wc. tauto.
+  intros W ops rf c fd o w HI. eapply (Q_xa_weaken et nd W ops (QE c fd o)); [intros; discriminate|intros c0 []| |exact HI].
+  intros u x HR. pose proof (q_x _ _ _ _ _ _ _ _ _ HR) as X. cbn [qsem] in *. unfold wc. tauto.
 Qed.
 
 (* the buffer of a connection inside a write is filled: it is exempt until somebody answers for it *)
@@ -249,7 +210,7 @@ Lemma Q_fill_x : forall W ops rf c fd o out w,
   QINV (RQ W ops (QXf c fd) rf) (wsetc w c (c_set_out (wc w c) out)).
 Proof.
   intros W ops rf c fd o out w HI. eapply Inv_wsetc; [exact HI|]. intros [] [p b] _ HR. unfold wc.
-  pose proof (q_x _ _ _ _ _ _ _ _ HR) as X. cbn [qsem fst] in X. destruct X as (X1 & X2 & X3 & X4 & X5).
+  pose proof (q_x _ _ _ _ _ _ _ _ _ HR) as X. cbn [qsem fst] in X. destruct X as (X1 & X2 & X3 & X4 & X5).
   assert (HR1 : RQ W ops (QXf c fd) rf tt (p, b) (st w)).
   { eapply RQ_xa_weaken; [exact HR|discriminate|intros c0 []|]. cbn [qsem fst]. auto. }
   apply RQ_setc; auto; cbn [c_set_out c_opened c_udp c_fd c_out].
@@ -267,16 +228,16 @@ Proof.
   pose proof (Q_fill_x _ _ _ _ _ _ out _ HI) as H1.
   (* redo it keeping the owed flag *)
   clear H1. eapply Inv_wsetc; [exact HI|]. intros [] [p b] _ HR. unfold wc.
-  pose proof (q_x _ _ _ _ _ _ _ _ HR) as X. cbn [qsem fst] in X. destruct X as (X1 & X2 & X3 & X4 & X5).
+  pose proof (q_x _ _ _ _ _ _ _ _ _ HR) as X. cbn [qsem fst] in X. destruct X as (X1 & X2 & X3 & X4 & X5).
   assert (HR1 : RQ W ops (QXf c fd) rf tt (p, b) (st w)).
   { eapply RQ_xa_weaken; [exact HR|discriminate|intros c0 []|]. cbn [qsem fst]. auto. }
-  eapply (RQ_unexempt et _ _ (QXf c fd) _ _ _ _ _ c); [|cbn; auto|discriminate|].
+  eapply (RQ_unexempt et nd _ _ (QXf c fd) _ _ _ _ _ c); [|cbn; auto|discriminate|].
   - apply RQ_setc; auto; cbn [c_set_out c_opened c_udp c_fd c_out].
     + intros A _ D _. destruct X5 as [E|E]; [congruence|]. unfold pdead in D. congruence.
     + intros fd0 _ _ _ _ _ G. exfalso. apply G. reflexivity.
     + discriminate.
     + discriminate.
-  - intros fd0 _ _ _ _ _. unfold served. destruct (q_et _ _ _ _ _ _ _ _ HR) as [E _]. rewrite <- E, Hb. auto.
+  - intros fd0 _ _ _ _ _. unfold served. destruct (q_et _ _ _ _ _ _ _ _ _ HR) as [E _]. rewrite <- E, Hb. auto.
 Qed.
 
 (* write interest registered for an exempt connection (level-triggered) *)
@@ -285,20 +246,20 @@ Lemma Q_arm_x : forall W ops rf c fd op e w r w', op_code op <> 2 -> l_et (st w)
   QINV (RQ W ops (match r with RNil => QNone | _ => QXf c fd end) rf) w'.
 Proof.
   intros W ops rf c fd op e w r w' Hop Hb HI E.
-  pose proof (Q_epctl_arm _ _ _ _ _ _ _ _ _ _ _ Hop HI E) as H.
+  pose proof (Q_epctl_arm _ _ _ _ _ _ _ _ _ _ _ _ Hop HI E) as H.
   pose proof (epctl_et _ _ _ _ _ _ _ E) as Hm.
   eapply Inv_weaken; [|exact H]. intros [] [p b] Hh [HR Hw]. cbn [fst] in Hw.
   destruct r; try exact HR.
-  eapply (RQ_unexempt et _ _ (QXf c fd) _ _ _ _ _ c); [exact HR|cbn; auto|discriminate|].
+  eapply (RQ_unexempt et nd _ _ (QXf c fd) _ _ _ _ _ c); [exact HR|cbn; auto|discriminate|].
   intros fd0 Hin _ _ _ _. unfold served.
-  destruct (q_et _ _ _ _ _ _ _ _ HR) as [E1 _]. assert (Het : et = false) by congruence. rewrite Het.
-  pose proof (q_x _ _ _ _ _ _ _ _ HR) as X. cbn [qsem] in X. destruct X as (_ & X2 & _).
-  destruct (q_reglt _ _ _ _ _ _ _ _ HR _ _ Hin) as (_ & _ & F). rewrite F in X2. subst fd0.
+  destruct (q_et _ _ _ _ _ _ _ _ _ HR) as [E1 _]. assert (Het : et = false) by congruence. rewrite Het.
+  pose proof (q_x _ _ _ _ _ _ _ _ _ HR) as X. cbn [qsem] in X. destruct X as (_ & X2 & _).
+  destruct (q_reglt _ _ _ _ _ _ _ _ _ HR _ _ Hin) as (_ & _ & F). rewrite F in X2. subst fd0.
   apply Hw; auto.
 Qed.
 
 Lemma Q_qe_drop : forall W ops rf c fd o w, QINV (RQ W ops (QE c fd o) rf) w -> QINV (RQ W ops QNone rf) w.
-Proof. intros W ops rf c fd o w HI. eapply (Q_xa_drop et W ops (QE c fd o)); [intros c0 []|discriminate|exact HI]. Qed.
+Proof. intros W ops rf c fd o w HI. eapply (Q_xa_drop et nd W ops (QE c fd o)); [intros c0 []|discriminate|exact HI]. Qed.
 
 
 Lemma st_wsetc_et : forall w c c', l_et (st (wsetc w c c')) = l_et (st w).
@@ -306,7 +267,7 @@ Proof. reflexivity. Qed.
 
 (* the common tail of both loops after the kernel took part of the data or said EAGAIN:
    the rest is appended to the outbound buffer and, level-triggered, write interest requested *)
-Lemma loop_tail : forall W ops rf cid fd o (b : bool) n out w1 r w',
+Lemma loop_tail : forall W ops rf cid fd o (b : bool) (n : Z) out w1 (r : Z * bool) w',
   l_et (st w1) = b -> (b = true -> o = true) ->
   QINV (RQ W ops (QE cid fd o) rf) w1 ->
   (if b then ((n, true), wsetc w1 cid (c_set_out (wc w1 cid) out))
@@ -320,7 +281,7 @@ Proof.
   - destruct (epctl "mod" _ true false _) as [r3 w3] eqn:E3. inversion E; subst.
     pose proof (Q_fill_x _ _ _ _ _ _ out _ H1) as H2.
     assert (Hop : op_code "mod" <> 2) by (cbn; discriminate).
-    pose proof (Q_arm_x W ops rf cid fd "mod" false _ _ _ Hop Hb H2 E3) as H3.
+    pose proof (Q_arm_x W ops rf cid fd "mod" false (wsetc w1 cid (c_set_out (wc w1 cid) out)) _ _ Hop Hb H2 E3) as H3.
     destruct r3.
     + exists QNone. split; [apply okx_none|]. split; [auto|exact H3].
     + exists (QXf cid fd). split; [apply okx_xf|]. split; [discriminate|exact H3].
@@ -335,7 +296,7 @@ Proof.
   intros f M cid d n w r w' W ops rf fd0 o HI0 E. cbn [conn_write_loop] in E.
   pose proof (Q_reanchor _ _ _ _ _ _ _ HI0) as HI. clear HI0. set (fd := c_fd (wc w cid)) in *.
   destruct (sys_wr cid _ d true w) as [k w1] eqn:Es.
-  pose proof (Q_sys_wr_E _ _ _ _ _ _ _ _ _ _ _ _ _ HI Es) as H1.
+  pose proof (Q_sys_wr_E _ _ _ _ _ _ _ _ _ _ _ _ _ _ HI Es) as H1.
   pose proof (sys_wr_et _ _ _ _ _ _ _ Es) as Hm1.
   destruct k as [sent extra|e|].
   - destruct H1 as [Hn H1].
@@ -358,7 +319,7 @@ Proof.
   intros f M cid sg n w r w' W ops rf fd0 o HI0 E. cbn [conn_writev_loop] in E.
   pose proof (Q_reanchor _ _ _ _ _ _ _ HI0) as HI. clear HI0. set (fd := c_fd (wc w cid)) in *.
   destruct (sys_wr cid _ _ true w) as [k w1] eqn:Es.
-  pose proof (Q_sys_wr_E _ _ _ _ _ _ _ _ _ _ _ _ _ HI Es) as H1.
+  pose proof (Q_sys_wr_E _ _ _ _ _ _ _ _ _ _ _ _ _ _ HI Es) as H1.
   pose proof (sys_wr_et _ _ _ _ _ _ _ Es) as Hm1.
   destruct k as [sent extra|e|].
   - destruct H1 as [Hn H1].
@@ -373,3 +334,507 @@ Proof.
     + inversion E; subst. exists QNone. split; [apply okx_none|]. split; [auto|]. eapply Q_qe_drop; exact H1.
   - inversion E; subst. exists QNone. split; [apply okx_none|]. split; [auto|]. apply Q_dead. exact H1.
 Qed.
+
+(* ------------------------------------------------------------------ *)
+(* conn.write / conn.writev / el.write *)
+
+Lemma wc_wsetc : forall w cid c, wc (wsetc w cid c) cid = c.
+Proof. intros. unfold wc, wsetc. cbn [st with_st]. rewrite getc_setc, Z.eqb_refl. reflexivity. Qed.
+
+(* appending to a non-empty outbound buffer of an open connection *)
+Lemma Q_append : forall W ops rf cid d w, c_opened (wc w cid) = true -> c_out (wc w cid) <> [] ->
+  QINV (RQ W ops QNone rf) w ->
+  QINV (RQ W ops QNone rf) (wsetc w cid (c_set_out (wc w cid) (c_out (wc w cid) ++ d))).
+Proof.
+  intros W ops rf cid d w Ho Hne HI. eapply Inv_wsetc; [exact HI|]. intros [] [p b] _ HR. unfold wc in *.
+  apply RQ_setc; auto; cbn [c_set_out c_opened c_udp c_fd c_out]; try discriminate.
+  - intros A. congruence.
+  - intros fd Hin A D E _ G. apply (q_main _ _ _ _ _ _ _ _ _ HR fd cid Hin A D E Hne G).
+Qed.
+
+Lemma Q_enter_qe : forall W ops rf cid w, c_opened (wc w cid) = true -> c_out (wc w cid) = [] ->
+  QINV (RQ W ops QNone rf) w -> QINV (RQ W ops (QE cid (c_fd (wc w cid)) false) rf) w.
+Proof.
+  intros W ops rf cid w Ho He HI. apply Q_xa_set; [|exact HI]. intros u x HR. cbn [qsem]. unfold wc in *.
+  pose proof (q_opn _ _ _ _ _ _ _ _ _ HR cid Ho). repeat split; auto. discriminate.
+Qed.
+
+Lemma conn_write_S : forall f, MQ f -> forall cid d w r w' W ops rf, (nd = [] \/ nd = [cid]) ->
+  QINV (RQ W ops QNone rf) w -> conn_write (S f) cid d w = (r, w') -> QINV (RQ W ops QNone rf) w'.
+Proof.
+  intros f M cid d w r w' W ops rf Hnd HI E. cbn [conn_write] in E.
+  destruct (c_opened (wc w cid)) eqn:Eo; cbn [negb] in E; [|inversion E; subst; exact HI].
+  assert (H1 : QINV (RQ W ops QNone rf) (ghost "sub" cid d w)) by (apply Q_emit; [qoign|exact HI]).
+  destruct (c_out (wc w cid)) as [|b0 l0] eqn:Eout.
+  - assert (H1' : QINV (RQ W ops (QE cid (c_fd (wc w cid)) false) rf) (ghost "sub" cid d w)).
+    { rewrite <- (wc_ghost "sub" cid d w cid). apply Q_enter_qe; rewrite ?wc_ghost; auto. }
+    destruct (conn_write_loop f cid d (zlen d) _) as [[rn ok] w1] eqn:El.
+    destruct (mq_wloop _ M _ _ _ _ _ _ _ _ _ _ _ H1' El) as (xa & Hok & Hxa & H2). cbn [snd] in Hxa.
+    destruct ok; [inversion E; subst; rewrite (Hxa eq_refl) in H2; exact H2|].
+    destruct (el_close f cid false w1) as [r2 w2] eqn:Ec. inversion E; subst.
+    eapply (mq_close _ M); eauto.
+  - inversion E; subst.
+    pose proof (Q_append W ops rf cid d (ghost "sub" cid d w)) as HA. rewrite !wc_ghost in HA.
+    rewrite Eout in HA. apply HA; [exact Eo|discriminate|exact H1].
+Qed.
+
+Lemma conn_writev_S : forall f, MQ f -> forall cid sg w r w' W ops rf, (nd = [] \/ nd = [cid]) ->
+  QINV (RQ W ops QNone rf) w -> conn_writev (S f) cid sg w = (r, w') -> QINV (RQ W ops QNone rf) w'.
+Proof.
+  intros f M cid sg w r w' W ops rf Hnd HI E. cbn [conn_writev] in E.
+  destruct (c_opened (wc w cid)) eqn:Eo; cbn [negb] in E; [|inversion E; subst; exact HI].
+  assert (H1 : QINV (RQ W ops QNone rf) (ghost "sub" cid (List.concat sg) w)) by (apply Q_emit; [qoign|exact HI]).
+  destruct (c_out (wc w cid)) as [|b0 l0] eqn:Eout.
+  - destruct sg as [|s0 sg']; [inversion E; subst; exact H1|].
+    assert (H1' : QINV (RQ W ops (QE cid (c_fd (wc w cid)) false) rf) (ghost "sub" cid (List.concat (s0 :: sg')) w)).
+    { rewrite <- (wc_ghost "sub" cid (List.concat (s0 :: sg')) w cid). apply Q_enter_qe; rewrite ?wc_ghost; auto. }
+    destruct (conn_writev_loop f cid _ _ _) as [[rn ok] w1] eqn:El.
+    destruct (mq_wvloop _ M _ _ _ _ _ _ _ _ _ _ _ H1' El) as (xa & Hok & Hxa & H2). cbn [snd] in Hxa.
+    destruct ok; [inversion E; subst; rewrite (Hxa eq_refl) in H2; exact H2|].
+    destruct (el_close f cid false w1) as [r2 w2] eqn:Ec. inversion E; subst.
+    eapply (mq_close _ M); eauto.
+  - inversion E; subst.
+    pose proof (Q_append W ops rf cid (List.concat sg) (ghost "sub" cid (List.concat sg) w)) as HA. rewrite !wc_ghost in HA.
+    rewrite Eout in HA. apply HA; [exact Eo|discriminate|exact H1].
+Qed.
+
+Lemma el_write_S : forall f, MQ f -> forall cid sent w r w' W ops rf xa,
+  xa = QNone \/ (xa = QX cid /\ l_et (st w) = true) -> (nd = [] \/ nd = [cid]) ->
+  QINV (RQ W ops xa rf) w -> el_write (S f) cid sent w = (r, w') -> QINV (RQ W ops QNone rf) w'.
+Proof.
+  intros f M cid sent w r w' W ops rf xa Hxa Hnd HI E. cbn [el_write] in E.
+  assert (Hxa' : xa = QNone \/ xa = QX cid) by tauto.
+  destruct (c_opened (wc w cid)) eqn:Eo; cbn [negb] in E.
+  2:{ inversion E; subst. destruct Hxa' as [->| ->]; [exact HI|]. eapply Q_unexempt_closed; eauto. }
+  destruct (c_out (wc w cid)) as [|b0 l0] eqn:Eout.
+  { inversion E; subst. destruct Hxa' as [->| ->]; [exact HI|]. eapply Q_unexempt_empty; eauto. }
+  rewrite <- Eout in E. set (fd := c_fd (wc w cid)) in *.
+  destruct (l_et (st w)) eqn:Eb.
+  - (* edge-triggered: the connection is exempt while the kernel is asked *)
+    assert (Ha : QINV (RQ W ops (QX cid) rf) w) by (destruct Hxa' as [->| ->]; [apply Q_exempt; exact HI|exact HI]).
+    destruct (sys_wr cid _ _ false w) as [k w1] eqn:Es.
+    pose proof (sys_wr_et _ _ _ _ _ _ _ Es) as Hm1.
+    pose proof (Q_sys_wr_gen et nd W ops rf (QX cid) (QX cid) QNone QNone cid fd (c_out (wc w cid)) false w k w1
+      ltac:(intros bs w0 _ H0; refine (Q_hand _ _ _ _ (QX cid) _ cid bs _ _ H0); intros _; left; reflexivity)
+      ltac:(intros w0 Hm H0; apply Q_owed_x; [left; reflexivity|congruence|exact H0])
+      ltac:(intros w0 _ H0; apply Q_fail_x; exact H0) Ha Es) as H1.
+    destruct k as [n extra|e|].
+    + destruct H1 as [Hn H1].
+      assert (H2 : QINV (RQ W ops (QX cid) rf) (wsetc w1 cid (c_set_out (wc w1 cid) (zdrop n (c_out (wc w1 cid)))))).
+      { apply Q_set_out_x; [|exact H1]. intros ->. apply zdrop_nil. }
+      destruct (zdrop n (c_out (wc w1 cid))) as [|b1 l1] eqn:Ed.
+      * inversion E; subst. eapply Q_unexempt_empty; [|exact H2]. rewrite wc_wsetc. reflexivity.
+      * rewrite <- Ed in *. destruct (_ <? _).
+        { eapply (mq_elwrite _ M); [right; split; [reflexivity|]|exact Hnd|exact H2|exact E]. rewrite st_wsetc_et. congruence. }
+        { eapply Q_trigger; [| |exact E]; [reflexivity|].
+          apply Q_owed_x; [right; reflexivity|rewrite st_wsetc_et; congruence|exact H2]. }
+    + destruct (is_eagain e); [inversion E; subst; exact H1|].
+      eapply (mq_close _ M); [apply okx_none|exact Hnd|exact H1|exact E].
+    + inversion E; subst. apply Q_dead. exact H1.
+  - (* level-triggered *)
+    assert (HI0 : QINV (RQ W ops QNone rf) w) by (destruct Hxa as [->|[_ C]]; [exact HI|discriminate]).
+    assert (Ha : QINV (RQ W ops (QOf cid fd) rf) w).
+    { apply Q_xa_set; [|exact HI0]. intros u x HR. cbn [qsem]. unfold wc in *.
+      pose proof (q_opn _ _ _ _ _ _ _ _ _ HR cid Eo). auto. }
+    destruct (sys_wr cid _ _ false w) as [k w1] eqn:Es.
+    pose proof (sys_wr_et _ _ _ _ _ _ _ Es) as Hm1.
+    assert (Hdrop : forall w0, QINV (RQ W ops (QOf cid fd) rf) w0 -> QINV (RQ W ops QNone rf) w0).
+    { intros w0 H0. eapply (Q_xa_drop et nd W ops (QOf cid fd)); [intros c0 []|discriminate|exact H0]. }
+    pose proof (Q_sys_wr_gen et nd W ops rf (QOf cid fd) (QOf cid fd) QNone QNone cid fd (c_out (wc w cid)) false w k w1
+      ltac:(intros bs w0 Hm H0; refine (Q_hand _ _ _ _ (QOf cid fd) _ cid bs _ _ H0); intros C; congruence)
+      ltac:(intros w0 _ H0; apply Hdrop; exact (Q_owed _ _ _ _ (QOf cid fd) _ "eagain" cid _ (or_introl eq_refl) H0))
+      ltac:(intros w0 _ H0; apply Hdrop; apply Q_fail; exact H0) Ha Es) as H1.
+    destruct k as [n extra|e|].
+    + destruct H1 as [Hn H1].
+      assert (H2 : QINV (RQ W ops (QOf cid fd) rf) (wsetc w1 cid (c_set_out (wc w1 cid) (zdrop n (c_out (wc w1 cid)))))).
+      { eapply Inv_wsetc; [exact H1|]. intros [] [p b] _ HR. unfold wc in *.
+        apply RQ_setc; auto; cbn [c_set_out c_opened c_udp c_fd c_out]; try discriminate.
+        - intros A B D F. rewrite (q_nop _ _ _ _ _ _ _ _ _ HR cid A B D F). apply zdrop_nil.
+        - intros fd0 Hin A D F G _. apply (q_main _ _ _ _ _ _ _ _ _ HR fd0 cid Hin A D F); [|intros []].
+          intros C. rewrite C, zdrop_nil in G. congruence. }
+      destruct (zdrop n (c_out (wc w1 cid))) as [|b1 l1] eqn:Ed.
+      * (* the buffer is empty: write interest is withdrawn *)
+        assert (H3 : QINV (RQ W ops (QEf cid fd) rf) (wsetc w1 cid (c_set_out (wc w1 cid) []))).
+        { eapply (Q_xa_weaken et nd W ops (QOf cid fd)); [intros; discriminate|intros c0 []| |exact H2].
+          intros u x HR. pose proof (q_x _ _ _ _ _ _ _ _ _ HR) as X. cbn [qsem] in *.
+          destruct X as (X1 & X2 & X3). repeat split; auto.
+          change (c_out (wc (wsetc w1 cid (c_set_out (wc w1 cid) [])) cid) = []). rewrite wc_wsetc. reflexivity. }
+        eapply Q_xa_drop; [| |eapply Q_epctl_free; [|exact H3|exact E]].
+        { intros c0 []. } { intros; discriminate. }
+        intros u p b s HR c Hin Hu D Hne. pose proof (q_x _ _ _ _ _ _ _ _ _ HR) as X. cbn [qsem] in X.
+        destruct X as (X1 & X2 & X3 & X4).
+        destruct (q_reglt _ _ _ _ _ _ _ _ _ HR _ _ Hin) as (_ & L1 & _).
+        destruct (q_reg _ _ _ _ _ _ _ _ _ HR cid X4) as [B|[B _]]; rewrite X3 in B; [|congruence].
+        assert (c = cid) by congruence. subst c. congruence.
+      * rewrite <- Ed in *. inversion E; subst. apply Hdrop. exact H2.
+    + destruct (is_eagain e); [inversion E; subst; exact H1|].
+      eapply (mq_close _ M); [apply okx_none|exact Hnd|exact H1|exact E].
+    + inversion E; subst. apply Q_dead. exact H1.
+Qed.
+
+End ND.
+
+(* ------------------------------------------------------------------ *)
+(* between different sets of connections treated as clean *)
+
+Notation RQn := (LoopProgressBlock.RQ et).
+
+Lemma RQ_nd_weaken : forall nd nd' W ops xa rf u x s, (forall c, In c nd' -> In c nd) ->
+  RQn nd W ops xa rf u x s -> RQn nd' W ops xa rf u x s.
+Proof.
+  intros nd nd' W ops xa rf u x s Hs [R1 R2 R3 R4 R5 R6 R7 R8 R9 R10 R11 R12 R13]. constructor; auto.
+  - intros c A B D [E|E]; apply (R10 c A B D); [left; exact E|right; auto].
+  - intros fd c H A D [E|E]; apply (R11 fd c H A D); [left; exact E|right; auto].
+Qed.
+
+(* a doomed connection can be treated as clean *)
+Lemma RQ_nd_dead : forall W ops xa rf u x s c, pdead (fst x) c = true ->
+  RQn [] W ops xa rf u x s -> RQn [c] W ops xa rf u x s.
+Proof.
+  intros W ops xa rf u x s c Hd [R1 R2 R3 R4 R5 R6 R7 R8 R9 R10 R11 R12 R13]. constructor; auto.
+  - intros c0 A B D [E|[->|[]]]; [apply (R10 c0 A B D); left; exact E|congruence].
+  - intros fd c0 H A D [E|[->|[]]]; [apply (R11 fd c0 H A D); left; exact E|congruence].
+Qed.
+
+(* an exempt open connection can be treated as clean *)
+Lemma RQ_nd_exempt : forall W ops rf u x s c, c_opened (getc s c) = true ->
+  RQn [] W ops (QX c) rf u x s -> RQn [c] W ops (QX c) rf u x s.
+Proof.
+  intros W ops rf u x s c Ho [R1 R2 R3 R4 R5 R6 R7 R8 R9 R10 R11 R12 R13]. constructor; auto.
+  - intros c0 A B D [E|[->|[]]]; [apply (R10 c0 A B D); left; exact E|congruence].
+  - intros fd c0 H A D [E|[->|[]]]; [apply (R11 fd c0 H A D); left; exact E|].
+    intros _ G. exfalso. apply G. reflexivity.
+Qed.
+
+Definition MQa (f : nat) : Prop := forall nd, MQ nd f.
+
+Lemma el_close_S : forall f, MQa f -> forall nd cid e w r w' W ops rf xa, okx xa cid -> (nd = [] \/ nd = [cid]) ->
+  QINV (RQn nd W ops xa rf) w -> el_close (S f) cid e w = (r, w') -> QINV (RQn nd W ops QNone rf) w'.
+Proof.
+  intros f M nd cid e w r w' W ops rf xa Hxa Hnd HI E. cbn [el_close] in E.
+  assert (Hnoop : c_opened (wc w cid) = false \/ alookup (c_fd (wc w cid)) (l_reg (st w)) = None ->
+                  QINV (RQn nd W ops QNone rf) w).
+  { intros Hg. apply (Q_unexempt et nd W ops xa rf w cid (proj1 Hxa) (proj2 Hxa)); [|exact HI].
+    intros u p b HR fd Hin Hu D _ _. exfalso. unfold wc in *.
+    assert (Hq : forall A, xa = QRegd cid -> A) by (intros A Q; exfalso; eapply (proj2 Hxa); eauto).
+    destruct (q_regop _ _ _ _ _ _ _ _ _ HR fd cid Hin D) as [A|[A|A]]; [|congruence|apply Hq; exact A].
+    destruct (q_reg _ _ _ _ _ _ _ _ _ HR cid A) as [B|[B C]].
+    - destruct Hg; congruence.
+    - destruct (q_W _ _ _ _ _ _ _ _ _ HR cid C) as [D' _]. cbn [fst] in *. congruence. }
+  destruct (c_opened (wc w cid)) eqn:Eo; cbn [negb orb] in E; [|inversion E; subst; apply Hnoop; auto].
+  destruct (alookup (c_fd (wc w cid)) (l_reg (st w))) as [rc|] eqn:Er; [|inversion E; subst; apply Hnoop; auto].
+  clear Hnoop.
+  set (w2 := emit _ (with_st w _)) in E.
+  assert (H2 : QINV (RQn [] (cid :: W) ops QNone rf) w2).
+  { subst w2. eapply Inv_set_emit; [exact HI|reflexivity|].
+    intros [] [p b] _ HR. cbn [ustep]. unfold wc in *.
+    destruct (RQ_close nd _ _ _ _ _ _ _ cid (err_sym e) xa Hxa HR Eo) as [x' [Ex HR']]; [congruence|].
+    exists x'. split; [exact Ex|]. eapply RQ_nd_weaken; [|exact HR']. intros c []. }
+  clearbody w2.
+  destruct (handler f cid w2) as [[act rep] w3] eqn:Eh.
+  pose proof (mq_handler _ _ (M []) _ _ _ _ _ _ _ eq_refl H2 Eh) as H3.
+  assert (HinW : In cid (cid :: W)) by (left; reflexivity).
+  pose proof (mq_drain _ _ (M []) cid _ _ _ _ HinW H3) as H4.
+  set (w4 := close_drain f cid w3) in *. clearbody w4.
+  set (fd4 := c_fd (wc w4 cid)) in *.
+  assert (H5 : QINV (RQn nd W ops (QNoReg fd4) rf) (wsetc w4 cid (c_release (wc w4 cid)))).
+  { eapply Inv_wsetc; [exact H4|]. intros [] x _ HR.
+    assert (HRn : RQn nd (cid :: W) ops QNone rf tt x (st w4)).
+    { destruct Hnd as [->| ->]; [exact HR|]. apply RQ_nd_dead; [|exact HR].
+      apply (q_W _ _ _ _ _ _ _ _ _ HR cid HinW). }
+    apply RQ_release. exact HRn. }
+  assert (Hfree : forall u p b s, RQn nd W ops (QNoReg fd4) rf u (p, b) s ->
+     forall c, In (fd4, c) (l_reg s) -> c_udp (getc s c) = false -> pdead p c = false -> c_out (getc s c) <> [] -> False).
+  { intros u p b s HR c Hin _ _ _. pose proof (q_x _ _ _ _ _ _ _ _ _ HR) as X. cbn [qsem] in X.
+    eapply noreg_free; eauto. }
+  destruct (epctl "del" _ false false _) as [r0 w6] eqn:E6.
+  pose proof (Q_epctl_free _ _ _ _ _ _ _ _ _ _ _ _ _ Hfree H5 E6) as H6.
+  destruct (sys "close" _ w6) as [k1 w7] eqn:E7.
+  pose proof (Q_sys_close _ _ _ _ _ _ _ _ _ _ Hfree H6 E7) as H7.
+  assert (H7' : QINV (RQn nd W ops QNone rf) w7)
+    by (eapply (Q_xa_drop et nd W ops (QNoReg fd4)); [| |exact H7]; [intros c []|intros; discriminate]).
+  destruct (match r0 with RNil => _ | _ => true end); [inversion E; subst; exact H7'|].
+  destruct act; [inversion E; subst; exact H7'| |inversion E; subst; exact H7'].
+  eapply (mq_close _ _ (M nd)); [apply okx_none|exact Hnd|exact H7'|exact E].
+Qed.
+
+(* ------------------------------------------------------------------ *)
+(* ReadFrom and Flush *)
+
+Notation RQ0 := (LoopProgressBlock.RQ et []).
+
+Lemma Q_hr_readfrom : forall W ops rf cid vals w c',
+  c_fd c' = c_fd (wc w cid) -> c_opened c' = c_opened (wc w cid) -> c_udp c' = c_udp (wc w cid) ->
+  QINV (RQ0 W ops QNone rf) w ->
+  QINV (RQ0 W ops QNone rf) (emit (obs "hr" (AInt cid :: ASym "readfrom" :: vals)) (wsetc w cid c')).
+Proof.
+  intros W ops rf cid vals w c' Hf Ho Hu HI. eapply Inv_wsetc_emit; [exact HI|reflexivity|].
+  intros [] [p b] _ HR. cbn [ustep]. eexists. split; [apply qstep_hr; reflexivity|]. unfold wc in *.
+  set (p' := mkP (p_et p) (p_want_w p) (p_last p) (p_owed p) (cid :: p_dirty p) (p_dead p)).
+  assert (Hcl : forall c0, clean [] p' c0 -> c0 <> cid /\ clean [] p c0).
+  { intros c0 [H|[]]. unfold pdirty, p' in H. cbn [p_dirty] in H. rewrite zmem_cons in H. apply orb_false_elim in H.
+    destruct H as [A B]. split; [lia|left; exact B]. }
+  assert (HR' : RQ0 W ops QNone rf tt (p', b) (st w)).
+  { eapply RQ_prog; [exact HR|reflexivity|exact (q_last _ _ _ _ _ _ _ _ _ HR)|auto| | | |exact I].
+    - exact (q_regop _ _ _ _ _ _ _ _ _ HR).
+    - intros c0 A B D E. apply (q_nop _ _ _ _ _ _ _ _ _ HR c0 A B D). apply (Hcl _ E).
+    - intros fd c0 H A D E F G. apply (q_main _ _ _ _ _ _ _ _ _ HR fd c0 H A D); auto. apply (Hcl _ E). }
+  apply RQ_setc; auto; try discriminate.
+  - intros _ _ _ E. exfalso. destruct (Hcl _ E). congruence.
+  - intros fd _ _ _ E. exfalso. destruct (Hcl _ E). congruence.
+Qed.
+
+(* a successful Flush: the connection is clean again; it must be served like every other one *)
+Lemma Q_hr_flush_nil : forall (R : unit -> progst * rdst -> lstate -> Prop) nd1 W ops ops0 xa1 rf cid w,
+  (forall c, In c ops0 -> In c ops) ->
+  (forall c, ~ exempt xa1 c) -> (forall c, xa1 <> QRegd c) ->
+  (forall u p b, halt w = false -> R u (p, b) (st w) ->
+     RQn nd1 W ops xa1 rf u (p, b) (st w) /\
+     (c_opened (wc w cid) = false -> c_udp (wc w cid) = false -> pdead p cid = false -> c_out (wc w cid) = []) /\
+     (forall fd, In (fd, cid) (l_reg (st w)) -> c_udp (wc w cid) = false -> pdead p cid = false ->
+        c_out (wc w cid) <> [] -> served et p fd cid) /\
+     (forall c, In c nd1 -> c = cid)) ->
+  QINV R w ->
+  QINV (RQ0 W ops0 QNone rf) (emit (obs "hr" [AInt cid; ASym "flush"; ASym "nil"]) w).
+Proof.
+  intros R nd1 W ops ops0 xa1 rf cid w Hsub N1 N2 Hc HI. eapply Inv_emit; [exact HI|reflexivity|].
+  intros [] [p b] Hh HR0. cbn [ustep]. eexists. split; [apply qstep_hr; reflexivity|].
+  destruct (Hc _ _ _ Hh HR0) as (HR & C1 & C2 & Hnd). unfold wc in *.
+  set (p' := mkP (p_et p) (p_want_w p) (p_last p) (p_owed p) (zrem cid (p_dirty p)) (p_dead p)).
+  assert (Hcl : forall c0, c0 <> cid -> clean [] p' c0 -> clean nd1 p c0).
+  { intros c0 N [H|[]]. left. unfold pdirty, p' in *. cbn [p_dirty] in H. rewrite zmem_zrem in H.
+    replace (c0 =? cid) with false in H by lia. exact H. }
+  destruct HR as [R1 R2 R3 R4 R5 R6 R7 R8 R9 R10 R11 R12 R13]. cbn [fst snd] in *.
+  constructor; cbn [fst snd]; auto.
+  - intros fd c H D. destruct (R7 _ _ H D) as [A|[A|A]]; auto. exfalso. eapply N2; eauto.
+  - intros c fd H. apply (R9 c fd). apply Hsub. exact H.
+  - intros c A B D E. destruct (Z.eq_dec c cid) as [->|N]; [apply C1; auto|]. apply (R10 c A B D). apply Hcl; auto.
+  - intros fd c H A D E F _. destruct (Z.eq_dec c cid) as [->|N]; [apply C2; auto|].
+    assert (M0 : served et p fd c) by (apply (R11 fd c H A D); auto; apply N1). exact M0.
+  - exact I.
+Qed.
+
+Lemma Q_nd_ops_drop : forall nd1 W ops ops' xa rf w, (forall c, In c ops -> In c ops') ->
+  QINV (RQn nd1 W ops' xa rf) w -> QINV (RQ0 W ops xa rf) w.
+Proof.
+  intros nd1 W ops ops' xa rf w Hs HI. eapply Q_weaken; [|exact HI]. intros u x HR.
+  apply (RQ_nd_weaken nd1 []); [intros c []|].
+  destruct HR as [R1 R2 R3 R4 R5 R6 R7 R8 R9 R10 R11 R12 R13]. constructor; auto.
+Qed.
+
+Lemma handler_S : forall f, MQa f -> forall cid w r w' W ops rf,
+  QINV (RQ0 W ops QNone rf) w -> handler (S f) cid w = (r, w') -> QINV (RQ0 W ops QNone rf) w'.
+Proof.
+  intros f M cid w r w' W ops rf HI E. rewrite handler_eq in E.
+  destruct (pull w) as [[[name args]|] w1] eqn:Ep.
+  - pose proof (Q_pull _ _ _ _ _ _ _ _ _ _ HI Ep) as H1.
+    destruct (String.eqb name "hret").
+    { destruct args; inversion E; subst; [eapply Q_desync; exact H1|exact H1]. }
+    destruct (String.eqb name "h"); [|inversion E; subst; eapply Q_desync; exact H1].
+    destruct args as [|[?|?|call] args']; try (inversion E; subst; eapply Q_desync; exact H1).
+    eapply (mq_handler _ _ (M [])); [reflexivity| |exact E]. apply (mq_hcall _ _ (M [])); [reflexivity|exact H1].
+  - inversion E; subst. eapply Q_pull; eauto.
+Qed.
+
+Ltac chain_next :=
+  match goal with |- context [if sym_eqb ?c ?lit then _ else _] =>
+    let E := fresh "Ec" in destruct (sym_eqb c lit) eqn:E;
+    [apply String.eqb_eq in E; subst c|] end.
+Ltac qoign := apply qign_out_ign; repeat split; reflexivity.
+Ltac hrq := apply Q_emit; [qoign|].
+Ltac dsq := eapply Q_desync; eassumption.
+
+Lemma Q_same0 : forall W ops rf w c c',
+  c_fd c' = c_fd (wc w c) -> c_opened c' = c_opened (wc w c) -> c_udp c' = c_udp (wc w c) ->
+  c_out c' = c_out (wc w c) ->
+  QINV (RQ0 W ops QNone rf) w -> QINV (RQ0 W ops QNone rf) (wsetc w c c').
+Proof. intros. apply Q_wsetc_same; auto. Qed.
+
+
+Lemma hcall_flush : forall f, MQa f -> forall cid w W ops rf,
+  QINV (RQ0 W ops QNone rf) w ->
+  QINV (RQ0 W ops QNone rf)
+    (if c_udp (wc w cid) then emit (obs "hr" [AInt cid; ASym "flush"; ASym "nil"]) w else
+     if negb (c_opened (wc w cid)) then emit (obs "hr" [AInt cid; ASym "flush"; ASym "err"]) w else
+     let '(r, w1) := el_write f cid 0 w in
+     match r with
+     | RNil =>
+         if negb (l_et (st w1)) && c_opened (wc w1 cid) && (match c_out (wc w1 cid) with [] => false | _ => true end) then
+           let '(r2, w2) := epctl "mod" (c_fd (wc w1 cid)) true false w1 in
+           emit (obs "hr" [AInt cid; ASym "flush"; ASym (match r2 with RNil => "nil" | _ => "err" end)]) w2
+         else emit (obs "hr" [AInt cid; ASym "flush"; ASym "nil"]) w1
+     | RShutdown => emit (obs "hr" [AInt cid; ASym "flush"; ASym "shutdown"]) w1
+     | _ => emit (obs "hr" [AInt cid; ASym "flush"; ASym "err"]) w1
+     end).
+Proof.
+  intros f M cid w W ops rf HI.
+  destruct (c_udp (wc w cid)) eqn:Eu.
+  { eapply (Q_hr_flush_nil _ [] W ops ops QNone rf cid w); [auto|intros c []|discriminate| |exact HI].
+    intros u p b _ HR. split; [exact HR|]. repeat split; try congruence. intros c []. }
+  destruct (c_opened (wc w cid)) eqn:Eo; cbn [negb]; [|hrq; exact HI].
+  set (ops' := (cid, Some (c_fd (wc w cid))) :: ops).
+  assert (Hsub : forall c, In c ops -> In c ops') by (intros c H; right; exact H).
+  pose proof (Q_ops_add [] _ _ _ _ _ cid Eo HI) as HIo. fold ops' in HIo.
+  destruct (el_write f cid 0 w) as [r w1] eqn:Ew.
+  pose proof (ef_elwrite _ (EF_all f) _ _ _ _ _ Ew) as Hm1.
+  set (nd1 := if l_et (st w) then [cid] else []).
+  assert (Hnd1 : forall c, In c nd1 -> c = cid).
+  { subst nd1. destruct (l_et (st w)); intros c H; [destruct H as [H|[]]; auto|destruct H]. }
+  assert (H1 : QINV (RQn nd1 W ops' QNone rf) w1).
+  { subst nd1. destruct (l_et (st w)) eqn:Eb.
+    - eapply (mq_elwrite _ _ (M [cid])); [right; split; [reflexivity|exact Eb]|right; reflexivity| |exact Ew].
+      eapply Q_weaken; [|apply (Q_exempt et [] _ _ _ _ cid HIo)]. intros u x HR. apply RQ_nd_exempt; [exact Eo|exact HR].
+    - eapply (mq_elwrite _ _ (M [])); [left; reflexivity|left; reflexivity|exact HIo|exact Ew]. }
+  assert (Hdrop : forall w0, QINV (RQn nd1 W ops' QNone rf) w0 -> QINV (RQ0 W ops QNone rf) w0).
+  { intros w0 H0. eapply Q_nd_ops_drop; [exact Hsub|exact H0]. }
+  destruct r; try (hrq; apply Hdrop; exact H1).
+  destruct (negb (l_et (st w1)) && c_opened (wc w1 cid) && _) eqn:Et.
+  - (* level-triggered, still open, bytes left: ask for writability *)
+    apply andb_prop in Et. destruct Et as [Et Et3]. apply andb_prop in Et. destruct Et as [Et1 Et2].
+    assert (Eb1 : l_et (st w1) = false) by (destruct (l_et (st w1)); [discriminate|reflexivity]).
+    assert (Eb : l_et (st w) = false) by congruence.
+    assert (H1' : QINV (RQ0 W ops' QNone rf) w1) by (subst nd1; rewrite Eb in H1; exact H1).
+    set (fd1 := c_fd (wc w1 cid)).
+    assert (H1o : QINV (RQ0 W ops' (QOf cid fd1) rf) w1).
+    { apply Q_xa_set; [|exact H1']. intros u x HR. cbn [qsem]. unfold wc in *.
+      pose proof (q_opn _ _ _ _ _ _ _ _ _ HR cid Et2). auto. }
+    destruct (epctl "mod" _ true false w1) as [r2 w2] eqn:E2.
+    assert (Hop : op_code "mod" <> 2) by (cbn; discriminate).
+    pose proof (Q_epctl_arm et [] _ _ _ _ _ _ _ _ _ _ Hop H1o E2) as H2.
+    pose proof (epctl_et _ _ _ _ _ _ _ E2) as Hm2.
+    destruct r2.
+    + eapply (Q_hr_flush_nil _ [] W ops' ops (QOf cid fd1) rf cid w2); [exact Hsub|intros c []|discriminate| |exact H2].
+      intros u p b Hh [HR Hw]. split; [exact HR|]. cbn [fst] in Hw.
+      pose proof (q_x _ _ _ _ _ _ _ _ _ HR) as X. cbn [qsem] in X. destruct X as (X1 & X2 & X3). unfold wc.
+      repeat split; [congruence| |intros c []].
+      intros fd0 Hin _ _ _. unfold served.
+      destruct (q_et _ _ _ _ _ _ _ _ _ HR) as [E1 _]. assert (Het : et = false) by congruence. rewrite Het.
+      destruct (q_reglt _ _ _ _ _ _ _ _ _ HR _ _ Hin) as (_ & _ & F). rewrite F in X2. subst fd0.
+      apply Hw; auto.
+    + hrq; apply (Q_nd_ops_drop [] W ops ops'); [exact Hsub|];
+      eapply (Q_xa_drop et [] W ops' (QOf cid fd1)); [intros c []|discriminate|];
+      (eapply Inv_weaken; [|exact H2]); intros h x _ [HR _]; exact HR.
+    + hrq; apply (Q_nd_ops_drop [] W ops ops'); [exact Hsub|];
+      eapply (Q_xa_drop et [] W ops' (QOf cid fd1)); [intros c []|discriminate|];
+      (eapply Inv_weaken; [|exact H2]); intros h x _ [HR _]; exact HR.
+    + hrq; apply (Q_nd_ops_drop [] W ops ops'); [exact Hsub|];
+      eapply (Q_xa_drop et [] W ops' (QOf cid fd1)); [intros c []|discriminate|];
+      (eapply Inv_weaken; [|exact H2]); intros h x _ [HR _]; exact HR.
+  - (* nothing to register: the Flush succeeded *)
+    eapply (Q_hr_flush_nil _ nd1 W ops' ops QNone rf cid w1); [exact Hsub|intros c []|discriminate| |exact H1].
+    intros u p b _ HR. split; [exact HR|]. unfold wc in *. split; [|split; [|exact Hnd1]].
+    + intros A _ D. destruct (q_ops _ _ _ _ _ _ _ _ _ HR cid _ (or_introl eq_refl)) as (_ & (_ & [B|B])); cbn [fst] in *; congruence.
+    + intros fd0 Hin A D Hne.
+      destruct (l_et (st w1)) eqn:Eb1.
+      * assert (Eb : l_et (st w) = true) by congruence. subst nd1. rewrite Eb in HR.
+        apply (q_main _ _ _ _ _ _ _ _ _ HR fd0 cid Hin A D); [right; left; reflexivity|exact Hne|intros []].
+      * cbn [negb andb] in Et. destruct (c_opened (getc (st w1) cid)) eqn:Eo1.
+        { cbn [andb] in Et. destruct (c_out (getc (st w1) cid)); [congruence|discriminate]. }
+        { destruct (q_ops _ _ _ _ _ _ _ _ _ HR cid _ (or_introl eq_refl)) as (_ & (_ & [B|B])); cbn [fst] in *; congruence. }
+Qed.
+
+Lemma Q_sys0 : forall W ops rf name args w k w',
+  out_ign ustep (qstep et) (obs "sys" (ASym name :: args)) ->
+  QINV (RQ0 W ops QNone rf) w -> sys name args w = (k, w') -> QINV (RQ0 W ops QNone rf) w'.
+Proof. intros. eapply Q_sys; eauto. Qed.
+
+Lemma hcall_S : forall f, MQa f -> forall cid call args w W ops rf,
+  QINV (RQ0 W ops QNone rf) w -> QINV (RQ0 W ops QNone rf) (hcall (S f) cid call args w).
+Proof.
+  intros f M cid call args w W ops rf HI. cbn [hcall].
+  chain_next.
+  { destruct args as [|[n|?|?] [|]]; try dsq.
+    destruct (c_in (wc w cid)); [hrq; apply Q_same0; auto|].
+    destruct (_ =? n); hrq; apply Q_same0; auto. }
+  chain_next.
+  { destruct args as [|[n|?|?] [|]]; try dsq.
+    destruct (n >? _); [hrq; exact HI|]. hrq; apply Q_same0; auto. }
+  chain_next.
+  { destruct args as [|[n|?|?] [|]]; try dsq. destruct (n >? _); hrq; exact HI. }
+  chain_next.
+  { destruct args as [|[n|?|?] [|]]; try dsq.
+    destruct (_ || _); [hrq; apply Q_same0; auto|].
+    destruct (c_in (wc w cid)); [hrq; apply Q_same0; auto|].
+    destruct (n <? _); hrq; apply Q_same0; auto. }
+  chain_next.
+  { hrq; apply Q_same0; auto. }
+  chain_next.
+  { hrq. exact HI. }
+  chain_next.
+  { hrq. exact HI. }
+  chain_next.
+  { (* write *)
+    destruct args as [|[?|d|?] [|]]; try dsq.
+    destruct (c_udp (wc w cid)).
+    - destruct (_ && _); [hrq; exact HI|].
+      destruct (sys "sendto" _ w) as [k w1] eqn:Es.
+      assert (H1 : QINV (RQ0 W ops QNone rf) w1) by (eapply Q_sys0; [|exact HI|exact Es]; qoign).
+      destruct k; hrq; exact H1.
+    - destruct (conn_write f cid d w) as [[n ok] w1] eqn:Ew.
+      hrq. eapply (mq_write _ _ (M [])); [left; reflexivity|exact HI|exact Ew]. }
+  chain_next.
+  { destruct (c_udp (wc w cid)); [hrq; exact HI|].
+    destruct (conn_writev f cid (segs_of args) w) as [[n ok] w1] eqn:Ew.
+    hrq. eapply (mq_writev _ _ (M [])); [left; reflexivity|exact HI|exact Ew]. }
+  chain_next.
+  { exact (hcall_flush f M cid w W ops rf HI). }
+  chain_next.
+  { (* readfrom *)
+    destruct args as [|[?|d|?] [|]]; try dsq.
+    pose proof (Q_hr_readfrom W ops rf cid [AInt (zlen d); ASym "nil"] (ghost "sub" cid d w)
+                  (c_set_out (wc w cid) (c_out (wc w cid) ++ d))) as HR. rewrite !wc_ghost in HR.
+    apply HR; auto. apply Q_emit; [qoign|exact HI]. }
+  chain_next.
+  { (* asyncwrite *)
+    destruct args as [|[?|d|?] [|cb [|]]]; try dsq.
+    destruct (c_udp (wc w cid)).
+    - set (w0 := if negb (c_remote (wc w cid)) && negb (c_opened (wc w cid)) then _ else w).
+      assert (H0 : QINV (RQ0 W ops QNone rf) w0).
+      { subst w0. destruct (_ && _); [apply Q_emit; [qoign|exact HI]|exact HI]. }
+      destruct (sys "sendto" _ w0) as [k w1] eqn:Es.
+      assert (H1 : QINV (RQ0 W ops QNone rf) w1) by (eapply Q_sys0; [|exact H0|exact Es]; qoign).
+      hrq. destruct (flag_of cb); [apply Q_emit; [qoign|exact H1]|exact H1].
+    - destruct (trigger false _ w) as [r w1] eqn:Et.
+      hrq. eapply Q_trigger; [|exact HI|exact Et]; reflexivity. }
+  chain_next.
+  { destruct args as [|cb segs]; try dsq.
+    destruct (c_udp (wc w cid)); [hrq; exact HI|].
+    destruct (trigger false _ w) as [r w1] eqn:Et.
+    hrq. eapply Q_trigger; [|exact HI|exact Et]; reflexivity. }
+  chain_next.
+  { destruct args as [|cb [|]]; try dsq.
+    destruct (trigger true _ w) as [r w1] eqn:Et.
+    hrq. eapply Q_trigger; [|exact HI|exact Et]; reflexivity. }
+  chain_next.
+  { destruct args as [|cb [|]]; try dsq.
+    destruct (trigger true _ w) as [r w1] eqn:Et.
+    hrq. eapply Q_trigger; [|exact HI|exact Et]; reflexivity. }
+  chain_next.
+  { destruct (el_close f _ true w) as [r w1] eqn:Ecl.
+    hrq. eapply (mq_close _ _ (M [])); [apply okx_none|left; reflexivity|exact HI|exact Ecl]. }
+  chain_next.
+  { destruct args as [|[t|?|?] [|[?|?|call'] args']]; try dsq.
+    destruct (c_opened (wc w t)); [|dsq].
+    apply (mq_hcall _ _ (M [])); [reflexivity|exact HI]. }
+  dsq.
+Qed.
+
+Lemma MQa_all : forall f, MQa f.
+Proof.
+  induction f as [|f IH]; intros nd.
+  - constructor; intros; cbn in *;
+      try match goal with E : (_, _) = (_, _) |- _ => inversion E; subst end;
+      try (eexists; split; [apply okx_none|split; [reflexivity|]]); eapply Q_desync; eassumption.
+  - constructor.
+    + intros. eapply el_close_S; eauto.
+    + apply close_drain_S. exact (IH nd).
+    + apply conn_write_S. exact (IH nd).
+    + apply conn_write_loop_S. exact (IH nd).
+    + apply conn_writev_loop_S. exact (IH nd).
+    + apply conn_writev_S. exact (IH nd).
+    + apply el_write_S. exact (IH nd).
+    + intros cid w r w' W ops rf ->. apply handler_S. exact IH.
+    + intros cid call args w W ops rf ->. apply hcall_S. exact IH.
+Qed.
+
+End ET.
